@@ -57,7 +57,8 @@ def build_harness():
 
 def translate():
     rc, out = sh([os.path.join(BIN, "translate"), os.path.join(LEAN, "DL", "Gen"), REPO], timeout=600)
-    return rc == 0, out[-4000:]
+    rc2, out2 = sh([os.path.join(BIN, "translate2"), os.path.join(LEAN, "DL", "Gen"), REPO], timeout=600)
+    return rc == 0 and rc2 == 0, (out + out2)[-4000:]
 
 
 def lake_build(targets):
